@@ -9,7 +9,7 @@
 (* function types of the harness.                                           *)
 EXTENDS TypeGate, Json, IOUtils, SequencesExt
 
-CONSTANT Family   \* "d1ret" | "d1par" | "fm" | "ladder" | "ns" | "allret" | "allpar"
+CONSTANT Family   \* "d1ret" | "d1par" | "fm" | "ladder" | "ns" | "mod" | "allret" | "allpar"
 
 VARIABLE row      \* [lvl |-> "root"] | [lvl |-> "block", b] | [lvl |-> "row", i (index into ItemSeq), nc (name class)]
 
@@ -85,7 +85,29 @@ NsItems == RetItems(NsTerms) \cup ParItems(NsTerms)
            \cup {Fm(<<>>, Leaf(q[2]), <<"unused">>) : q \in NsLeafPairs}
            \cup {Fm(<<>>, <<"bare">>, Leaf(q[2])) : q \in NsLeafPairs}
 
+(* ---- module placement (family "mod") --------------------------------- *)
+(* Small module trees; the probed item lives in module `at`; every subset   *)
+(* of the other modules declares a filtermap of its own (the rest declare   *)
+(* plain functions only).  Items: every parameterless filtermap form over   *)
+(* the sides unused / bare / literal / u8 / String (accept-only, reject-only *)
+(* and fully used) and plain functions; asked by module path (and, name     *)
+(* class "unknown", by bare name / wrong path) as every fn() -> T, T of     *)
+(* depth <= 1.                                                              *)
+Layouts == { [mods |-> <<"pkg">>, at |-> "pkg"],
+             [mods |-> <<"pkg", "a">>, at |-> "a"],
+             [mods |-> <<"pkg", "a">>, at |-> "pkg"],
+             [mods |-> <<"pkg", "a", "b">>, at |-> "a"],
+             [mods |-> <<"pkg", "a", "b">>, at |-> "b"],
+             [mods |-> <<"pkg", "a", "a.c">>, at |-> "a.c"],
+             [mods |-> <<"pkg", "a", "a.c">>, at |-> "a"] }
+Places == UNION {{[mods |-> l.mods, at |-> l.at, fmIn |-> S] : S \in SUBSET (Range(l.mods) \ {l.at})} : l \in Layouts}
+ModSides == SideForms \cup {Leaf("u8"), Leaf("String")}
+ModBase == ({Fm(<<>>, a, r) : a \in ModSides, r \in ModSides} \ {Fm(<<>>, <<"unused">>, <<"unused">>)})
+           \cup {Fn(<<>>, Leaf("u8")), Fn(<<>>, Ver(Leaf("u8"), Leaf("()"))), Fn(<<>>, Leaf("()"))}
+ModItems == {Placed(i, p) : i \in ModBase, p \in Places}
+
 Items == CASE Family = "d1ret"  -> RetItems(RotoD1)
+           [] Family = "mod"    -> ModItems
            [] Family = "ns"     -> NsItems
            [] Family = "d1par"  -> ParItems(RotoD1)
            [] Family = "fm"     -> FmItems
@@ -93,13 +115,15 @@ Items == CASE Family = "d1ret"  -> RetItems(RotoD1)
            [] Family = "allret" -> RetItems(RotoD1 \cup RotoD2 \cup RotoD3)
            [] Family = "allpar" -> ParItems(RotoD1 \cup RotoD2)
 Universe == CASE Family = "d1ret"  -> RetSigs(RustD1)
+              [] Family = "mod"    -> RetSigs(RustD1)
               [] Family = "ns"     -> RetSigs(RustD1) \cup ParSigs(RustD1)
               [] Family = "d1par"  -> ParSigs(RustD1)
               [] Family = "fm"     -> RetSigs(RustD1)
               [] Family = "ladder" -> RustLadder
               [] Family = "allret" -> RetSigs(RustD1 \cup RustD2 \cup RustD3)
               [] Family = "allpar" -> ParSigs(RustD1 \cup RustD2)
-Classes == IF Family = "ladder" THEN NameClasses ELSE {"declared"}
+Classes == IF Family = "ladder" THEN NameClasses
+           ELSE IF Family = "mod" THEN {"declared", "unknown"} ELSE {"declared"}
 
 ASSUME PrintT(<<"UNIVERSE", ToJson(Universe)>>)
 
